@@ -515,5 +515,6 @@ def _update_axis(
           inv_eigvals=axis_state.inv_eigvals,
           tail=axis_state.tail,
           inv_tail=axis_state.inv_tail,
+          ema_ggt=axis_state.ema_ggt,
       )
   )
